@@ -4,6 +4,8 @@ import (
 	"bytes"
 	"encoding/json"
 	"fmt"
+	"sync"
+	"sync/atomic"
 	"unicode/utf8"
 
 	"github.com/willabides/rjson"
@@ -368,6 +370,62 @@ func RunC17(c *Ctx) {
 					c.Rec.AddViolation(h.Violation{Property: c.Prop, Oracle: "StdLibCompatibleMap leaves a key or string unconverted at great depth", Entry: "StdLibCompatibleMap", Family: dc.Family, Desc: dc.Desc, Script: fmt.Sprintf("depth=%d", depth), Expected: "every key and the innermost string converted", Observed: fmt.Sprintf("keys converted all the way down: %v, innermost %q", okKeys, y), Seed: c.Seed, Tier: c.Tier})
 				}
 			})
+		}
+	}
+	// concurrent callers: the helpers are pure functions of their argument, also when many
+	// goroutines convert different strings at once (seeded change C17r6-m1: a pooled rune scratch
+	// read after it was put back). The race detector part of this lives in C18; here only results.
+	if c.Shard == 1%max(c.NShards, 1) || c.NShards <= 1 {
+		cc := &h.Case{Family: "concurrent-callers", Desc: "16 goroutines converting their own strings (8 to 6000 bytes, invalid bytes sprinkled in) 300 times each"}
+		cc.Input = []byte(cc.Desc)
+		c.Rec.R.Cases++
+		c.Rec.R.Nontrivial++
+		const G = 16
+		ins := make([]string, G)
+		wants := make([]string, G)
+		for g := range ins {
+			n := []int{8, 40, 300, 600, 1500, 4000, 6000, 64}[g%8]
+			b := make([]byte, n)
+			for i := range b {
+				b[i] = byte('a' + (i+g)%26)
+				if (i+g)%11 == 0 {
+					b[i] = byte(0x80 + (i*7+g)%0x80)
+				}
+			}
+			ins[g] = string(b)
+			wants[g] = refmodel.ToValid(b)
+		}
+		var bad int64
+		var firstBad atomic.Value
+		var wg sync.WaitGroup
+		for g := 0; g < G; g++ {
+			wg.Add(1)
+			go func(g int) {
+				defer wg.Done()
+				defer func() {
+					if r := recover(); r != nil {
+						atomic.AddInt64(&bad, 1)
+						firstBad.Store(fmt.Sprintf("goroutine %d panicked: %v", g, r))
+					}
+				}()
+				for round := 0; round < 300; round++ {
+					got := rjson.StdLibCompatibleString(ins[g])
+					gb := rjson.StdLibCompatibleStringBytes([]byte(ins[g]), nil)
+					gs := rjson.StdLibCompatibleSlice([]interface{}{ins[g]})
+					if got != wants[g] || string(gb) != wants[g] || gs[0] != wants[g] {
+						if atomic.AddInt64(&bad, 1) == 1 {
+							firstBad.Store(fmt.Sprintf("goroutine %d round %d: got %s / %s / %s", g, round, h.Quote([]byte(got)), h.Quote(gb), show(gs[0])))
+						}
+					}
+				}
+			}(g)
+		}
+		wg.Wait()
+		c.Rec.Evals(G * 300 * 3)
+		c.Rec.Count("concurrent_conversions", G*300*3)
+		if bad > 0 {
+			fb, _ := firstBad.Load().(string)
+			c.Rec.AddViolation(h.Violation{Property: c.Prop, Oracle: "a StdLibCompatible helper returns something else than the replacement of its own argument when other goroutines convert other strings at the same time", Entry: "StdLibCompatibleString", Family: cc.Family, Desc: cc.Desc, Script: "concurrent", Expected: "each result equals the model's replacement of that goroutine's own string", Observed: fmt.Sprintf("%d wrong results; first: %s", bad, fb), Seed: c.Seed, Tier: c.Tier})
 		}
 	}
 	// decoded documents: helper(ReadValue(d)) == json.Unmarshal(d) when no keys collide
